@@ -320,11 +320,16 @@ func Find(logger logger.Logger, start, stop string) (string, error) {
 					return "", fmt.Errorf("could not resolve '%s': %w", e.Name(), err)
 				}
 				return abs, nil
-			} else if start == stop {
-				return "", errors.New("No spokfile found")
 			}
 		}
-		start = filepath.Dir(start)
+
+		// Nothing in this directory, give up if it was the last one we're allowed
+		// to look in or if there is nowhere further up to go
+		parent := filepath.Dir(start)
+		if start == stop || parent == start {
+			return "", errors.New("No spokfile found")
+		}
+		start = parent
 	}
 }
 
